@@ -56,6 +56,60 @@ def wsScan : Nat → Nat → Bytes → Chunks → Out × Chunks
         else wsScan fuel ls (data ++ b) rest
     else (⟨data, .ws, fpLineFullRedir, .shortBuffer, false⟩, cs)
 
+/-- linear-time implementation of `wsScan` for the compiled driver: the data is kept reversed with its length.
+`wsScan_eq_fast` (kernel-checked) makes the compiler use it in place of `wsScan`; the theorems speak about `wsScan`. -/
+def wsScanFast : Nat → Nat → Nat → Bytes → Chunks → Out × Chunks
+  | 0, _, _, rdata, cs => (⟨rdata.reverse, .ws, fpLineFullRedir, .shortBuffer, false⟩, cs)
+  | fuel+1, ls, n, rdata, cs =>
+    let i : Int := (n - ls : Nat)
+    if crlLoop i ((bufLen - ls : Nat) : Int) then
+      match readWith crlReadFull (sliceLen (crlReadLo i) (crlReadHi i)) cs with
+      | none => (⟨rdata.reverse ++ cs.flatten, .ws, fpLineErrRedir, .readErr, fpLineErrCloses⟩, [])
+      | some (b, rest) =>
+        if b = [byteOf crlNewline] then
+          let rdata' := b.reverse ++ rdata
+          let n' := n + b.length
+          if ((rdata'.take (n' - ls)).reverse).take (crlRetOnNewline i).toNat = fpTerminator.map UInt8.ofNat then
+            (⟨rdata'.reverse, .ws, true, .ok, false⟩, rest)
+          else wsScanFast fuel n' n' rdata' rest
+        else wsScanFast fuel ls (n + b.length) (b.reverse ++ rdata) rest
+    else (⟨rdata.reverse, .ws, fpLineFullRedir, .shortBuffer, false⟩, cs)
+
+theorem wsScan_fast : ∀ (fuel ls : Nat) (data : Bytes) (cs : Chunks),
+    wsScan fuel ls data cs = wsScanFast fuel ls data.length data.reverse cs := by
+  intro fuel
+  induction fuel with
+  | zero => intro ls data cs; simp [wsScan, wsScanFast]
+  | succ fuel ih =>
+    intro ls data cs
+    unfold wsScan wsScanFast
+    simp only [List.reverse_reverse]
+    split
+    · split
+      · rfl
+      · rename_i b rest _
+        have hrev : b.reverse ++ data.reverse = (data ++ b).reverse := by rw [List.reverse_append]
+        have hlen : data.length + b.length = (data ++ b).length := by rw [List.length_append]
+        have hline : (List.take (data.length + b.length - ls) (b.reverse ++ data.reverse)).reverse = (data ++ b).drop ls := by
+          rw [hrev, hlen, List.take_reverse, List.reverse_reverse]
+          by_cases h : ls ≤ (data ++ b).length
+          · congr 1; omega
+          · have h1 : (data ++ b).length - ((data ++ b).length - ls) = (data ++ b).length := by omega
+            rw [h1, List.drop_of_length_le (Nat.le_refl _), List.drop_of_length_le (by omega)]
+        rw [hline]
+        split
+        · split
+          · rw [hrev, List.reverse_reverse]
+          · rw [ih, hrev, hlen]
+        · rw [ih, hrev, hlen]
+    · rfl
+
+def wsScanImpl (fuel ls : Nat) (data : Bytes) (cs : Chunks) : Out × Chunks :=
+  wsScanFast fuel ls data.length data.reverse cs
+
+@[csimp] theorem wsScan_eq_fast : @wsScan = @wsScanImpl := by
+  funext fuel ls data cs; exact wsScan_fast fuel ls data cs
+
 /-- `readFirstPacket(conn, buf, 15s)`; the end of the chunk list is EOF or the deadline -/
 def readFirstPacket (cs : Chunks) : Out × Chunks :=
   match readWith fpFirstFull (sliceLen (fpFirstLo 0 0) (fpFirstHi 0 0)) cs with
